@@ -522,7 +522,7 @@ class Categorical(Likelihood):
         norm_term = tree_map(
             partial(jnp.sum, axis=self.axis, keepdims=True), preds * tangents
         )
-        return preds * tangents - preds * sum(norm_term)
+        return preds * tangents - preds * norm_term
 
     def left_sqrt_metric(self, primals, tangents):
         from jax.nn import softmax
@@ -532,5 +532,4 @@ class Categorical(Likelihood):
         norm_term = tree_map(
             partial(jnp.sum, axis=self.axis, keepdims=True), sqrtp * tangents
         )
-        norm_term = sum(norm_term)
         return sqrtp * (tangents - sqrtp * norm_term)
